@@ -48,7 +48,7 @@ CONSTANTS Streams, Classes, TsClasses,
 Absent == <<>>     \* a missing x / t (TLC cannot compare an integer with a string, so both are sequences)
 Kinds == {"int", "flt", "str", "numstr", "bool", "null", "absent"}
 
-VARIABLES events,    \* set of accepted events [id, s, cls, ts]
+VARIABLES events,    \* set of accepted events [id, s, cls, ts, at]  (at = abstract event time, see AtOf)
           open,      \* [Streams -> Seq(id)]   the WIP block (accepted, not flushed)
           segs,      \* [Streams -> Seq([blocks: Seq(block), st: {"open","rotated"}, pq: SUBSET Queries])]
                      \*   block = [ids: Seq(id), pqm: [pq -> SUBSET id]]
@@ -156,9 +156,25 @@ CutBlock(sg, ids, evs) ==
   THEN [sg EXCEPT ![Len(sg)].blocks = Append(@, NewBlock(ids, sg[Len(sg)].pq, evs))]
   ELSE Append(sg, [blocks |-> <<NewBlock(ids, persist, evs)>>, st |-> "open", pq |-> persist])
 
+(* Abstract event time.  The timestamp class of a batch says how each of its events moves the clock of
+   its stream (the time of the stream's last event that carried a timestamp): inc +1, same +0, back -3,
+   far +4; an event without timestamp ("none") gets its arrival time, which is later than every sent
+   time and grows with the ingest order.  Times are therefore NOT monotone in ingest order: blocks and
+   segments get time ranges [lo, hi] that may be disjoint, nested or partially overlapping - what the
+   searcher's recent-first rounds (cut-off = start of the newest-ending segment) have to cope with.
+   A match-all over a covering range does not depend on them (RoundTrip). *)
+NowBase == 1000
+TsStep(ts) == CASE ts = "inc" -> 1 [] ts = "same" -> 0 [] ts = "back" -> -3 [] ts = "far" -> 4 [] OTHER -> 0
+Clock(s) == LET T == {e \in events : e.s = s /\ e.ts # "none"}
+            IN IF T = {} THEN 0 ELSE (CHOOSE e \in T : \A f \in T : f.id <= e.id).at
+AtOf(s, ts, i) == IF ts = "none" THEN NowBase + NextId + i - 1 ELSE Clock(s) + i * TsStep(ts)
+AtIn(evs, id) == EvIn(evs, id).at
+BlockLo(b) == MinOf({AtIn(events, b.ids[i]) : i \in DOMAIN b.ids})
+BlockHi(b) == MaxOf({AtIn(events, b.ids[i]) : i \in DOMAIN b.ids})
+
 Ingest(s, n, cls, ts) ==
   /\ n \in 1..MaxBatch /\ Cardinality(events) + n <= MaxEvents
-  /\ LET new == [i \in 1..n |-> [id |-> NextId + i - 1, s |-> s, cls |-> cls, ts |-> ts]]
+  /\ LET new == [i \in 1..n |-> [id |-> NextId + i - 1, s |-> s, cls |-> cls, ts |-> ts, at |-> AtOf(s, ts, i)]]
          ids == [i \in 1..n |-> NextId + i - 1]
      IN /\ events' = events \cup Range(new)
         \* AddEntry: record by record; the block is cut before the record that would overflow it
@@ -169,7 +185,7 @@ Ingest(s, n, cls, ts) ==
                                      ELSE CutBlock(cut[k - 1], SubSeq(all, (k - 1) * BlockCap + 1, k * BlockCap), events')
            IN /\ segs' = [segs EXCEPT ![s] = cut[full]]
               /\ open' = [open EXCEPT ![s] = SubSeq(all, full * BlockCap + 1, Len(all))]
-        /\ last' = [a |-> "ingest", s |-> s, ids |-> ids, cls |-> cls, ts |-> ts]
+        /\ last' = [a |-> "ingest", s |-> s, ids |-> ids, cls |-> cls, ts |-> ts, ats |-> [i \in 1..n |-> new[i].at]]
   /\ UNCHANGED <<lost, persist, nF, nR, nRS, nP>>
 
 FlushAll(sg, op) == [s \in Streams |-> IF op[s] = <<>> THEN sg[s] ELSE CutBlock(sg[s], op[s], events)]
